@@ -1265,6 +1265,10 @@ void readin (void)
 
 	skelout(false);	/* [0.0] Make hook macros available, silently */
 
+	/* "%option noline" may be seen after directives have been queued */
+	if (!ctrl.gen_line_dirs)
+		outn("m4_undefine([[M4_HOOK_TRACE_LINE_FORMAT]])m4_dnl");
+
 	comment("A lexical scanner generated by flex\n");
 
 	/* Dump the %top code. */
